@@ -64,7 +64,7 @@ CHECKS = {
         ref="DESIGN.md section 5 C07"),
     "C08": dict(
         technique="Coq proof (soundness + completeness of the fuelled decoder w.r.t. the canonical encoder, spans specified by a function) + exhaustive/generated differential run against Parser::decode",
-        text="C08_decode_spec: decode x = Ok t <-> x is the encoding of exactly one canonical value v and t = annot 0 v (every node's start/continuation computed from the encodings); proved for all byte strings. The model is tied to parser.rs by comparing whole trees incl. every span on all strings over a 10-symbol bencode alphabet up to length 5 (6 thorough) plus grammar-generated, mutated and numeric-adversary inputs; an independent reference decoder names the violated clause.",
+        text="C08_decode_spec: decode x = Ok t <-> x is the encoding of exactly one canonical value v and t = annot 0 v (every node's start/continuation computed from the encodings); proved for all byte strings. The model is tied to parser.rs by comparing whole trees incl. every span on all strings over a 11-symbol bencode alphabet (d e i l 0 1 2 : - a +) up to length 5 (6 thorough) plus grammar-generated, mutated and numeric-adversary inputs; an independent reference decoder names the violated clause.",
         ref="DESIGN.md section 5 C08"),
     "C09": dict(
         technique="Coq proof (no Panic, fuel |x|+1 suffices, loader total) + child-process runs of the real decoder/loader (debug+release, time limit, counting allocator)",
